@@ -569,3 +569,169 @@ Proof.
     assert (E : b_vol b - b_vol b == 0) by ring. rewrite E. simpl Qabs at 1.
     pose proof (Qabs_nonneg (b_vol b)). unfold ntol. lra.
 Qed.
+
+(** ================= construction histories (families of boxes) ================= *)
+
+Lemma close_eq a b : a == b -> close a b = true.
+Proof.
+  intro E. unfold close. apply Qle_bool_iff.
+  assert (E0 : a - b == 0) by (rewrite E; ring). rewrite E0. simpl Qabs at 1.
+  pose proof (Qabs_nonneg a). pose proof (Qabs_nonneg b). unfold ntol. lra.
+Qed.
+
+Lemma close_refl a : close a a = true.
+Proof. apply close_eq. reflexivity. Qed.
+
+Lemma vclose_refl : forall v, vclose v v = true.
+Proof. induction v as [|x v IH]; simpl; [reflexivity|]. rewrite close_refl, IH. reflexivity. Qed.
+
+Lemma lclose_refl : forall l, lclose l l = true.
+Proof. induction l as [|[a b] l IH]; simpl; [reflexivity|]. rewrite !close_refl, IH. reflexivity. Qed.
+
+Lemma mclose_refl : forall m, mclose m m = true.
+Proof. induction m as [|r m IH]; simpl; [reflexivity|]. rewrite vclose_refl, IH. reflexivity. Qed.
+
+(** what [ok_fam] establishes: EVERY member of the family, on its own, has proper limits, a positive volume
+    that is the product of the widths of the limits it reports, and all its drawn samples contained *)
+Theorem ok_fam_sound : forall l, ok_fam l = true ->
+  Forall (fun c => bc_impl_ok c = true ->
+            proper_lims (bc_impl_lims c) /\ 0 < bc_impl_vol c /\
+            close (bc_impl_vol c) (volume (bc_impl_lims c)) = true /\
+            Forall (fun o => so_contains o = true) (bc_smps c)) l.
+Proof.
+  intros l H. apply Forall_forall. intros c Hc Hok. unfold ok_fam in H. rewrite forallb_forall in H.
+  specialize (H c Hc). destruct (ok_box_sound c H Hok) as (A & B & C).
+  split; [exact A|]. split; [exact B|]. split; [|exact C].
+  unfold ok_box in H. rewrite Hok in H.
+  repeat (apply andb_true_iff in H; destruct H as [H ?]). assumption.
+Qed.
+
+(** the model's own family: every member is a fresh [mk_box] of its own inputs (no state shared between
+    the members, whatever the order and whatever else was constructed) *)
+Definition model_member (i : mat * option mat * vec * lims) : box_case :=
+  let '(R, Ri, c, l) := i in
+  match mk_box R Ri c l with
+  | Some b => {| bc_rot := R; bc_rotinv := Ri; bc_center := c; bc_lims := l; bc_tol := 0; bc_impl_ok := true;
+                 bc_impl_lims := b_lims b; bc_impl_vol := b_vol b; bc_impl_rotinv := b_rotinv b;
+                 bc_pts := []; bc_smps := [] |}
+  | None => {| bc_rot := R; bc_rotinv := Ri; bc_center := c; bc_lims := l; bc_tol := 0; bc_impl_ok := false;
+               bc_impl_lims := []; bc_impl_vol := 0; bc_impl_rotinv := []; bc_pts := []; bc_smps := [] |}
+  end.
+
+Theorem model_ok_fam : forall ins, ok_fam (map model_member ins) = true /\ agree_fam (map model_member ins) = true.
+Proof.
+  intros ins. unfold ok_fam, agree_fam. split; apply forallb_forall; intros c Hc; apply in_map_iff in Hc;
+    destruct Hc as ([[[R Ri] ce] l] & <- & _); unfold model_member.
+  - destruct (mk_box R Ri ce l) as [b|] eqn:E; unfold ok_box; cbn; [|reflexivity].
+    destruct (model_ok_box _ _ _ _ _ E) as (A & B & C). rewrite A, B, C. cbn. destruct Ri; reflexivity.
+  - destruct (mk_box R Ri ce l) as [b|] eqn:E; unfold agree_box; cbn; rewrite E; [|reflexivity].
+    rewrite lclose_refl, close_refl, mclose_refl. reflexivity.
+Qed.
+
+(** ================= call histories on one posterior ================= *)
+
+Definition is_reset (s : hstep) : bool := match s with HReset _ => true | _ => false end.
+
+(** [hist_all] checks every non-reset step against the cut-off in force at that step *)
+Theorem hist_all_spec : forall f steps eps,
+  hist_all f eps steps = true <->
+  (forall i s, nth_error steps i = Some s -> is_reset s = false -> f (cutoff_at eps steps i) s = true).
+Proof.
+  intros f. induction steps as [|s r IH]; intros eps; split.
+  - intros _ [|i] s H; discriminate.
+  - reflexivity.
+  - intros H [|i] s' Hn Hr.
+    + simpl in Hn. injection Hn as <-. destruct s; simpl in *; try discriminate;
+        apply andb_true_iff in H; apply H.
+    + simpl in Hn. destruct s as [e| |]; simpl in H |- *.
+      * apply (proj1 (IH e) H i s' Hn Hr).
+      * apply andb_true_iff in H. apply (proj1 (IH eps) (proj2 H) i s' Hn Hr).
+      * apply andb_true_iff in H. apply (proj1 (IH eps) (proj2 H) i s' Hn Hr).
+  - intros H. destruct s as [e|e|w]; simpl.
+    + apply IH. intros i s' Hn Hr. apply (H (S i) s' Hn Hr).
+    + apply andb_true_iff. split; [apply (H 0%nat (HEval e) eq_refl eq_refl)|].
+      apply IH. intros i s' Hn Hr. apply (H (S i) s' Hn Hr).
+    + apply andb_true_iff. split; [apply (H 0%nat (HWeight w) eq_refl eq_refl)|].
+      apply IH. intros i s' Hn Hr. apply (H (S i) s' Hn Hr).
+Qed.
+
+(** what [ok_hist] establishes: at every evaluation step of the history the observed value is the prior
+    density times the number of problems within the cut-off IN FORCE AT THAT STEP (the constructor's until
+    the first reset, then the latest reset's), whatever was evaluated before *)
+Theorem ok_hist_sound : forall c bs, ok_hist c = true -> mk_boxes (hc_regions c) = Some bs ->
+  forall i e, nth_error (hc_steps c) i = Some (HEval e) ->
+    all_decided (eo_tol e) bs (eo_theta e) = true ->
+    close (eo_impl_val e)
+          (eo_prior e * inject_Z (Z.of_nat (spec_count (hc_surrogate c) bs (eo_theta e) (eo_dists e)
+                                                      (cutoff_at (hc_eps0 c) (hc_steps c) i)))) = true.
+Proof.
+  intros c bs H Hb i e Hn Hd. unfold ok_hist in H.
+  pose proof (proj1 (hist_all_spec _ _ _) H i (HEval e) Hn eq_refl) as Hs.
+  unfold ok_step, ok_post, step_post in Hs. cbn in Hs. rewrite Hb, Hd in Hs. exact Hs.
+Qed.
+
+(** weight steps: the indicator is taken against the cut-off in force at that step *)
+Theorem ok_hist_sound_w : forall c, ok_hist c = true ->
+  forall i w r, nth_error (hc_steps c) i = Some (HWeight w) -> nth_error (hc_regions c) (ho_region w) = Some r ->
+    ok_w {| wc_region := r; wc_eps := cutoff_at (hc_eps0 c) (hc_steps c) i; wc_tol := hc_tol c;
+            wc_drawn := ho_drawn w; wc_obs := ho_obs w |} = true.
+Proof.
+  intros c H i w r Hn Hr. unfold ok_hist in H.
+  pose proof (proj1 (hist_all_spec _ _ _) H i (HWeight w) Hn eq_refl) as Hs.
+  unfold ok_step, step_w in Hs. rewrite Hr in Hs. exact Hs.
+Qed.
+
+(** the model's answers to the calls after a prefix [s1] of the history depend on [s1] only through the
+    cut-off it leaves in force: they are the answers of a posterior freshly constructed with that cut-off *)
+Theorem model_hist_app : forall sur bs s1 s2 eps,
+  model_hist sur bs eps (s1 ++ s2)
+  = model_hist sur bs eps s1 ++ model_hist sur bs (cutoff_at eps s1 (length s1)) s2.
+Proof.
+  intros sur bs. induction s1 as [|s r IH]; intros s2 eps; [reflexivity|].
+  destruct s as [e|e|w]; simpl; rewrite IH; reflexivity.
+Qed.
+
+Definition eval_wf (bs : list box) (s : hstep) : Prop :=
+  match s with
+  | HEval e => Forall (fun b => length (eo_theta e) = b_dim b) bs /\ length bs = length (eo_dists e)
+  | _ => True
+  end.
+
+Lemma model_hist_ok : forall c bs, mk_boxes (hc_regions c) = Some bs -> Forall wf_box bs ->
+  forall steps eps, Forall (eval_wf bs) steps ->
+    hist_all (ok_step c) eps (model_hist (hc_surrogate c) bs eps steps) = true.
+Proof.
+  intros c bs Hb Hwf. induction steps as [|s r IH]; intros eps Hs; [reflexivity|].
+  inversion Hs as [|? ? H1 H2]; subst. destruct s as [e|e|w]; simpl.
+  - apply IH; assumption.
+  - rewrite (IH eps H2), andb_true_r. unfold ok_post, step_post. cbn. rewrite Hb.
+    destruct (all_decided (eo_tol (model_eval (hc_surrogate c) bs eps e)) bs
+                (eo_theta (model_eval (hc_surrogate c) bs eps e))); [|reflexivity].
+    unfold model_eval.
+    destruct (pdf_unnorm (hc_surrogate c) bs (eo_theta e) (eo_dists e) eps (eo_prior e)) as [[[v n] called]|] eqn:E.
+    + cbn. destruct H1 as [Hd Hl].
+      destruct (pdf_unnorm_spec _ _ _ _ _ _ _ _ _ Hwf Hd Hl E) as [Hn Hv]. subst n. apply close_eq. exact Hv.
+    + (* shape error in the model: unreachable for well-formed evaluations, see [pdf_unnorm_total] *)
+      exfalso. destruct H1 as [Hd Hl]. unfold pdf_unnorm in E. destruct (hc_surrogate c); [|discriminate].
+      assert (T : exists cs, contains_all bs (eo_theta e) = Some cs).
+      { clear -Hwf Hd. induction bs as [|b bs IHb]; [eexists; reflexivity|].
+        inversion Hwf; subst. inversion Hd; subst. destruct (IHb H2 H4) as [cs Hcs]. simpl.
+        rewrite (contains_spec b (eo_theta e)) by assumption. rewrite Hcs. eexists; reflexivity. }
+      destruct T as [cs Hcs]. rewrite Hcs in E.
+      destruct (sum_over_regions_indicators 0 cs (eo_dists e) eps); discriminate.
+  - apply IH; assumption.
+Qed.
+
+(** for every set of regions and every history of resets and well-formed evaluations, the model's answers
+    pass [ok_hist] *)
+Theorem model_ok_hist : forall c bs, mk_boxes (hc_regions c) = Some bs -> Forall wf_box bs ->
+  Forall (eval_wf bs) (hc_steps c) ->
+  ok_hist {| hc_regions := hc_regions c; hc_surrogate := hc_surrogate c; hc_eps0 := hc_eps0 c; hc_tol := hc_tol c;
+             hc_steps := model_hist (hc_surrogate c) bs (hc_eps0 c) (hc_steps c) |} = true.
+Proof.
+  intros c bs Hb Hwf Hs. unfold ok_hist. cbn.
+  pose proof (model_hist_ok c bs Hb Hwf (hc_steps c) (hc_eps0 c) Hs) as H.
+  erewrite (proj2 (hist_all_spec _ _ _)); [reflexivity|].
+  intros i s Hn Hr. pose proof (proj1 (hist_all_spec _ _ _) H i s Hn Hr) as Hi.
+  destruct s as [e|e|w]; [discriminate| |]; exact Hi.
+Qed.
